@@ -1,7 +1,7 @@
 /-
   Rva.Spec.Ecalls — RARS environment calls (integer registers), written from the RARS
   documentation independently of the code: number ↦ (registers read, registers written).
-  Floating-point calls and the two calls whose integer signature is uncertain (43, 55) are
+  Floating-point calls and the call whose integer signature is uncertain (43) is
   left out; nothing is claimed about them. The same table is `tools/spec_ecalls.py`.
 -/
 namespace Rva.Spec
@@ -11,8 +11,14 @@ def rarsEcalls : List (Int × List Nat × List Nat) := [
   (11, [10], []), (12, [], [10]), (17, [10, 11], [10]), (30, [], [10, 11]),
   (31, [10, 11, 12, 13], []), (32, [10], []), (33, [10, 11, 12, 13], []), (34, [10], []),
   (35, [10], []), (36, [10], []), (40, [10, 11], []), (41, [10], [10]), (42, [10, 11], [10]),
-  (50, [10], [10]), (54, [10, 11, 12], [11]), (56, [10, 11], []), (57, [10], []),
+  (50, [10], [10]), (51, [10], [10, 11]), (54, [10, 11, 12], [11]), (55, [10, 11], []), (56, [10, 11], []), (57, [10], []),
   (59, [10, 11], []), (62, [10, 11, 12], [10]), (63, [10, 11, 12], [10]), (64, [10, 11, 12], [10]),
   (93, [10], []), (1024, [10, 11], [10])]
+
+/-- documented RARS calls the analyzer's table does not list: number ↦ integer registers written
+    (the floating-point calls write `fa0`, which the analysis does not track; 51-53 are the input
+    dialogs with a floating-point result: status in a1) -/
+def rarsUnlisted : List (Int × List Nat) := [
+  (2, []), (3, []), (6, []), (7, []), (44, []), (52, [11]), (53, [11]), (58, []), (60, [])]
 
 end Rva.Spec
